@@ -267,34 +267,39 @@ def conformance(h, ex, seed, k, apply_stubs=True):
     s.set("random_seed", seed % 1000)
     s.add(*forms)
     names = sorted(ex2.symbols)
-    for i in range(k):
+    attempts = 0
+    plain_used = False
+    while res["samples"] - res["skipped"] < k and attempts < 6 * k:
+        attempts += 1
         s.push()
-        # nudge towards different points: random box constraints that may be unsat (then dropped)
+        # nudge towards different points: random box constraints that may be unsat (then another box is tried)
         for n in rnd.sample(names, min(len(names), 3)):
             t = ex2.symbols[n]
             if z3.is_real(t) or z3.is_int(t):
                 lo = rnd.randint(-5, 4)
                 s.add(t >= lo, t <= lo + 2)
         r = s.check()
-        if r != z3.sat:
-            s.pop()
-            r = s.check()
-            if r != z3.sat:
-                break
+        m = s.model() if r == z3.sat else None
+        s.pop()
+        if m is None:
+            if plain_used:
+                continue
+            plain_used = True
+            if s.check() != z3.sat:
+                continue
             m = s.model()
-        else:
-            m = s.model()
-            s.pop()
         vals = _values_from_model(m, ex2.symbols)
         st, nctx = harness.run_native(h, vals, apply_stubs=apply_stubs)
         res["samples"] += 1
         if st == "ok":
             res["ok"] += 1
         elif st == "skip":
-            res["skipped"] += 1
+            res["skipped"] += 1           # e.g. a precondition stated over an axiomatised function (arccos, sqrt) does not hold for the real one
         else:
             res["mismatches"].append(dict(values=vals, status=st, failures=nctx.failures,
                                           unexpected=repr(nctx.unexpected)))
+            if len(res["mismatches"]) >= 3:
+                break
     return res
 
 
